@@ -4,6 +4,11 @@ import json, subprocess
 props = [json.loads(l) for l in open('/verif/properties.jsonl')]
 T = {
  'C01': ('reference-model monitor: documented npm desugaring of a generated range AST vs Range::satisfies on boundary probes (exhaustive operator x shape table, pairs, random loose spellings)', '5 C01'),
+ 'C04': ('reference-model monitor: SemVer §11 order written over identifier text vs Ord/Eq/PartialOrd/Hash on all ordered pairs of a version pool, sampled triples, sort/BTreeSet/min/max of sub-lists', '5 C04'),
+ 'C05': ('reference-model monitor: hand-written version grammar recogniser + denotation (strict language must parse, accepted strings must lie in the loose envelope, fields must equal the denotation) over every string of a 9-character alphabet up to length 7/9, one-edit neighbourhoods, near-limit inputs', '5 C05'),
+ 'C12': ('round-trip monitor: parse -> print -> parse field equality, fixed point, serde JSON = printed string, over every accepted string of the exhaustive enumeration, loose spellings, near-limit inputs, field-built versions', '5 C12'),
+ 'C17': ('invariant monitor on every parse error observed on hostile inputs: input()/offset()/span/location() recomputed independently, miette diagnostics rendered, error-kind clauses', '5 C17'),
+ 'C18': ('differential monitor: From<(T,T,T[,T])> for all ten integer types vs Version::parse of the dotted string (exhaustive u8/i8 triples, boundary values for wide types)', '5 C18'),
  'C07': ('reference-model monitor: pointwise interval-membership oracle over hook-observed bounds, exhaustive bound-kind table + random multi-alternative operands + results fed back', '5 C07'),
  'C08': ('reference-model monitor: pointwise set-difference oracle over hook-observed bounds (all alternatives of B), exact emptiness by interval model, partition with intersect', '5 C08'),
  'C09': ('metamorphic + reference-model monitor: allows_any vs intersect().is_some() vs exact interval overlap, exhaustive touching-endpoint table', '5 C09'),
